@@ -102,3 +102,28 @@ class Driver:
     def close(self):
         if self.sim is not None:
             self.sim.close()
+
+
+class OrderedSet(set):
+    """set iterating in a scenario-chosen order: the blocks named in `front` first (in that order), the rest by
+    name.  Every iteration order of a set is legitimate behaviour of the real code (it depends on hash values);
+    the scenario picks the orders that matter (e.g. which of two blocks is stopped first) with env.choose."""
+    front = []
+
+    def _order(self):
+        f = OrderedSet.front
+        return sorted(set.__iter__(self), key=lambda b: (f.index(b.name) if b.name in f else len(f), b.name))
+
+    def __iter__(self):
+        return iter(self._order())
+
+    def pop(self):
+        x = self._order()[0]
+        self.discard(x)
+        return x
+
+    def difference(self, *others):
+        return OrderedSet(set.difference(self, *others))
+
+    def intersection(self, *others):
+        return OrderedSet(set.intersection(self, *others))
